@@ -30,14 +30,28 @@ BASE_ARGS = ["-Z", "stubbing", "-Z", "unstable-options", "--no-memory-safety-che
 CBMC_ARGS = ["--cbmc-args", "--unwindset", "memcmp.0:34"]
 
 
-def sources_digest():
-    """Hash of everything a harness verdict depends on."""
+def sources_digest(part=None):
+    """Hash of everything a harness verdict depends on: /repo's sources as
+    read by the generator, the harness crate's own modules, and the harness
+    text -- the base harness files (harness/<module>.rs, which also hold shared
+    helpers) plus, for a harness living in a part file harness/<module>__<x>.rs,
+    that part only (parts never refer to each other)."""
     h = hashlib.sha256()
-    roots = [os.path.join(KANI_DIR, "gen"), os.path.join(KANI_DIR, "src"), os.path.join(KANI_DIR, "crypto"),
-             os.path.join(KANI_DIR, "harness"), os.path.join(VERIF, "shared"),
-             os.path.join(KANI_DIR, "Cargo.toml")]
+    import gen as _gen
+    for m in _gen.MODULES:
+        p = os.path.join(_gen.SRC, m + ".rs")
+        h.update(p.encode())
+        h.update(open(p, "rb").read())
+    roots = [os.path.join(KANI_DIR, "src"), os.path.join(KANI_DIR, "crypto"),
+             os.path.join(VERIF, "shared"), os.path.join(KANI_DIR, "Cargo.toml"),
+             os.path.join(VERIF, "lib", "gen.py")]
+    hd = os.path.join(KANI_DIR, "harness")
+    for f in sorted(os.listdir(hd)):
+        if "__" not in f or f == part:
+            roots.append(os.path.join(hd, f))
     for r in roots:
         if os.path.isfile(r):
+            h.update(r.encode())
             h.update(open(r, "rb").read())
             continue
         for d, _, fs in sorted(os.walk(r)):
@@ -153,7 +167,9 @@ def run_harnesses(names, tier, specs):
     results = {}
     todo = []
     for n in dict.fromkeys(names):
-        cpath = os.path.join(cache_dir, "%s.%s.json" % (n, digest[:24]))
+        part = specs.get(n, {}).get("part")
+        dg = sources_digest(part) if part else digest
+        cpath = os.path.join(cache_dir, "%s.%s.json" % (n, dg[:24]))
         if use_cache and os.path.exists(cpath):
             r = json.load(open(cpath))
             r["cached"] = True
